@@ -38,7 +38,8 @@ def main():
     quick = TIER != 'thorough'
     lemma, st = props.units_for('C02', quick)
     jobs = []
-    for k in ((1, 2) if quick else (1, 2, 3)):
+    for k in (1, 2):
+        # k = 3 multiplies the list shapes of nodes() x edges() beyond an hour of path construction: outside the claim
         jobs.append(('BDDGraph description k=%d' % k, dotcore.unit_bdd_graph, (k, dict(timeout=250 if quick else 3000))))
     for sh in SHAPES + ([] if quick else SHAPES_MORE):
         sh2 = 'L' if sh == ('L',) else sh
@@ -55,14 +56,14 @@ def main():
     jobs.append(('selftest:the false leaf gets the id of the true leaf', dotcore.unit_bdd_graph, (1, dict(mutate=('node_id', 'const "n_false"', 'const "n_true"')))))
     jobs.append(('selftest:left and right edge labels of a binary operator coincide', dotcore.unit_parse_tree, (('bin', 'L', 'L'), 2, dict(mutate=('edges', 'const "R"', 'const "L"')))))
     rep = run_property(PID, lemma, ['and', 'or', 'not'], [],
-                       bounds={'diagram': 'every function of k = 1, 2 (3 thorough) variables as its canonical diagram; filter unknown (True / False / Any)',
+                       bounds={'diagram': 'every function of k = 1, 2 variables as its canonical diagram; filter unknown (True / False / Any)',
                                'parse_trees': '%d sketch shapes (%d thorough) over 2 (3) variables: every operator / quantifier / counting kind / constant / variable choice symbolic' % (len(SHAPES), len(SHAPES) + len(SHAPES_MORE)),
                                'main': '-d / -p with -f unknown, -m, -c unknown'},
                        assumptions=props.COMMON_ASSUME + ['dot::render replaced by its contract: node statements from nodes() / node_id / node_label, edge statements from edges() / source / target / edge_label, nothing else',
                                                           'dot::Id::new accepts exactly [A-Za-z_][A-Za-z0-9_]*; LabelText::label wraps its argument',
                                                           'a {:p}-rendered Rc address is "0x" + hex digits and equal for two nodes exactly when they are the same allocation; allocations are identified with node structure (sharing: C13)',
                                                           'derived Debug of a field-less enum prints the variant name; Display of an integer is injective'],
-                       uncovered=['the DOT text itself (quoting / escaping by the `dot` crate) - checked on the replayed cases only', 'diagrams over more than 3 variables; parse trees beyond the listed shapes',
+                       uncovered=['the DOT text itself (quoting / escaping by the `dot` crate) - checked on the replayed cases only', 'diagrams over more than 2 variables (the sharing units that justify the address model run at k = 2..3); parse trees beyond the listed shapes',
                                   'Subtree / Reference nodes of the syntax tree (not produced by the parser)'],
                        extra_jobs=jobs)
     sys.exit(rep.finish())
